@@ -7,6 +7,7 @@ CONSTANTS
   PolA = "min"
   PolQ = "min"
   PolW = "min"
+  FormOf <- FormsOAU
   MwEnabled = TRUE
   Variant = "asWritten"
   KeepRecords = TRUE
